@@ -408,7 +408,8 @@ def enumerate_scripts(tier, feed):
 
 ASSUMPTIONS = [
     'black box: the real radar binary under a pty + fake TCP server; verdicts depend on heartbeat-ordered events only',
-    'an event counts as handled and drawn after 3 further ESC[?25l heartbeats (2 by the loop structure + 1 for bytes already in the pipe)',
+    "synchronisation is causal, never a sleep: terminal input counts as delivered when /proc/<pid>/io:rchar of the subject grew by the bytes written; feed bytes when the subject's TCP acknowledged them (TIOCOUTQ == 0); a heartbeat (ESC[?25l) counts as emitted after an injection when its offset in the output stream exceeds /proc/<pid>/io:wchar read after the injection; consumed feed lines are bounded by one per such heartbeat",
+    'an event counts as handled and drawn after 2 heartbeats emitted after the subject read it (one draw may be in progress)',
     'batched = adjacent key/mouse letters in ONE write(); resize/traffic letters are always followed by a heartbeat sync',
     'mouse coordinates are fixed cells of the 80x24 layout (tab titles, touchscreen buttons), also used at other sizes',
     'expiry uses --filter-time=1 with keep-alive frames in the pacing stream and a 1.6 s wait (0.6 s guard band)',
